@@ -1,3 +1,4 @@
 import NjectGen.Registry
 import NjectGen.Micro
 import NjectGen.Consts
+import NjectGen.Writes
